@@ -157,3 +157,80 @@ contract(SOL + "rainfall_partition.py", "rainfall_partition",
          assigns=[],
          options=dict(reads_only_if={"FieldMngt_zBund": "FieldMngt_Bunds", "FieldMngt_CNadjPct": "not FieldMngt_SRinhb"}),
          props=("C02", "C12", "C16", "C20"))
+
+# ----------------------------------------------------------------------------- root_zone_water
+_RZW_RET = ["WrAct", "Dr_Zt", "Dr_Rz", "TAW_Zt", "TAW_Rz", "thRZ_Act", "thRZ_S", "thRZ_FC", "thRZ_WP", "thRZ_Dry", "thRZ_Aer"]
+RZW_REQ = WF() + [
+    "forall(j, 0, n, prof.dz[j] >= 0.01)",
+    "forall(j, 0, n, prof.th_fc[j] - prof.th_wp[j] >= 0.01)",
+    "forall(j, 0, n, InitCond_th[j] >= 0)",
+    "Crop_Zmin >= 0.02",
+    "max(InitCond_Zroot, Crop_Zmin) + 0.005 <= prof.dzsum[n-1]",
+    "Soil_zTop >= prof.dzsum[0] + 0.005 or (is_int(100 * Soil_zTop) and Soil_zTop >= prof.dzsum[0])",
+]
+contract(SOL + "root_zone_water.py", "root_zone_water",
+         params=dict(prof=OBJ("SoilProfile"), InitCond_Zroot="Real", InitCond_th=_PA, Soil_zTop="Real", Crop_Zmin="Real", Crop_Aer="Real"),
+         ghost=GHOST_N,
+         requires=RZW_REQ,
+         returns=[(r, "Real") for r in _RZW_RET],
+         ensures=[
+             ("C03.rzw_wr_nonneg", "WrAct >= 0"),
+             ("C13.rzw_taw_positive", "TAW_Rz > 0"),
+             ("C13.rzw_depletion_le_taw", "Dr_Rz <= TAW_Rz and Dr_Zt <= TAW_Zt"),
+             ("C13.rzw_taw_top_nonneg", "TAW_Zt >= 0"),
+         ],
+         loops={
+             "L1": dict(invariant=[
+                 ("taw_lb", "implies(ii <= comp_sto, WrFC - WrWP >= 0.09 * ii)"),
+                 ("taw_pos", "implies(ii == comp_sto + 1, WrFC - WrWP > 0)"),
+                 ("comp", "0 <= comp_sto and comp_sto < n"),
+                 ("rd", "rootdepth >= 0.015"),
+             ]),
+             "L2": dict(invariant=[]),
+         },
+         assigns=[],
+         props=("C03", "C12", "C13", "C16"))
+
+# ----------------------------------------------------------------------------- irrigation
+_CAP = "min({x}, max(0, IrrMngt_MaxIrrSeason - NewCond_IrrCum))"
+contract(SOL + "irrigation.py", "irrigation",
+         params=dict(IrrMngt_IrrMethod="Int", IrrMngt_SMT=ARR("Real", 4), IrrMngt_AppEff="Real", IrrMngt_MaxIrr="Real", IrrMngt_IrrInterval="Int",
+                     IrrMngt_Schedule=ARR("Real", "n_steps"), IrrMngt_depth="Real", IrrMngt_MaxIrrSeason="Real", NewCond_GrowthStage="Int",
+                     NewCond_IrrCum="Real", NewCond_Epot="Real", NewCond_Tpot="Real", NewCond_Zroot="Real", NewCond_th=_PA, NewCond_DAP="Int",
+                     NewCond_TimeStepCounter="Int", Crop=OBJ("Crop"), prof=OBJ("SoilProfile"), Soil_zTop="Real", growing_season="Bool",
+                     Rain="Real", Runoff="Real"),
+         ghost=dict(n="Int", n_steps="Int"),
+         requires=[r.replace("InitCond_th", "NewCond_th").replace("InitCond_Zroot", "NewCond_Zroot").replace("Crop_Zmin", "Crop.Zmin") for r in RZW_REQ] + [
+             "0 <= IrrMngt_IrrMethod and IrrMngt_IrrMethod <= 5",
+             "0 <= IrrMngt_AppEff and IrrMngt_AppEff <= 100",
+             "IrrMngt_MaxIrr >= 0", "IrrMngt_MaxIrrSeason >= 0", "IrrMngt_depth >= 0",
+             "implies(IrrMngt_IrrMethod == 2, IrrMngt_IrrInterval >= 1)",
+             "implies(growing_season, NewCond_DAP >= 1)",
+             "implies(NewCond_DAP != 1, 1 <= NewCond_GrowthStage and NewCond_GrowthStage <= 4)",
+             "0 <= NewCond_TimeStepCounter and NewCond_TimeStepCounter < n_steps",
+             "forall(k, 0, n_steps, IrrMngt_Schedule[k] >= 0)",
+             "0 <= NewCond_IrrCum",
+         ],
+         returns=[("Depletion", "Real"), ("TAW", "Real"), ("IrrCum", "Real"), ("Irr", "Real")],
+         ensures=[
+             ("C13.irr_none_out_of_season", "implies(not growing_season, Irr == 0 and IrrCum == 0)"),
+             ("C13.irr_none_rainfed_or_net", "implies(IrrMngt_IrrMethod == 0 or IrrMngt_IrrMethod == 4, Irr == 0)"),
+             ("C04.irr_nonneg", "Irr >= 0"),
+             ("C13.irr_daily_max", "Irr <= IrrMngt_MaxIrr"),
+             ("C13.irr_cum", "implies(growing_season, IrrCum == NewCond_IrrCum + Irr)"),
+             ("C13.irr_season_max", "implies(NewCond_IrrCum <= IrrMngt_MaxIrrSeason, IrrCum <= IrrMngt_MaxIrrSeason)"),
+             ("C13.irr_interval_days", "implies(growing_season and IrrMngt_IrrMethod == 2 and Irr > 0, (NewCond_DAP - 1) % IrrMngt_IrrInterval == 0)"),
+             ("C13.irr_schedule_exact", "implies(growing_season and IrrMngt_IrrMethod == 3, Irr == " + _CAP.format(x="min(IrrMngt_MaxIrr, IrrMngt_Schedule[NewCond_TimeStepCounter])") + ")"),
+             ("C13.irr_constant_depth", "implies(growing_season and IrrMngt_IrrMethod == 5, Irr == " + _CAP.format(x="min(IrrMngt_MaxIrr, IrrMngt_depth)") + ")"),
+             ("C13.irr_smt_trigger", "implies(growing_season and IrrMngt_IrrMethod == 1, "
+              "Irr == ite(Depletion / TAW > 1 - IrrMngt_SMT[ite(NewCond_DAP == 1, 1, NewCond_GrowthStage) - 1] / 100, "
+              + _CAP.format(x="min(IrrMngt_MaxIrr, max(0, Depletion) * (2 - IrrMngt_AppEff / 100))") + ", 0))"),
+             ("C13.irr_interval_amount", "implies(growing_season and IrrMngt_IrrMethod == 2, "
+              "Irr == ite((NewCond_DAP - 1) % IrrMngt_IrrInterval == 0, " + _CAP.format(x="min(IrrMngt_MaxIrr, max(0, Depletion) * (2 - IrrMngt_AppEff / 100))") + ", 0))"),
+             ("C13.irr_taw_positive", "implies(growing_season, TAW > 0)"),
+         ],
+         options=dict(reads_only_if={"IrrMngt_SMT": "IrrMngt_IrrMethod == 1", "IrrMngt_IrrInterval": "IrrMngt_IrrMethod == 2",
+                                     "IrrMngt_Schedule": "IrrMngt_IrrMethod == 3", "IrrMngt_depth": "IrrMngt_IrrMethod == 5",
+                                     "IrrMngt_AppEff": "IrrMngt_IrrMethod == 1 or IrrMngt_IrrMethod == 2"}),
+         assigns=[],
+         props=("C13", "C04", "C06", "C20", "C12", "C16"))
